@@ -1,3 +1,8 @@
+import os
+import gzip
+import json
+import zlib
+
 from inspect import getmodule
 from collections import abc
 from pathlib import Path
@@ -171,6 +176,9 @@ class Experiment:
 
         if result_file and Path(result_file).exists():
             CobaContext.logger.log("Restoring Results")
+            self._drop_partial_record(result_file)
+
+        if result_file and Path(result_file).exists():
             restored = Result.from_file(result_file)
         else:
             restored = None
@@ -188,7 +196,7 @@ class Experiment:
         source    = DiskSource(result_file) if result_file else ListSource(sink.items)
         decode    = TransactionDecode()
         result    = TransactionResult()
-        preamble  = Identity() if restored else Insert([["T0",meta]])
+        preamble  = Identity() if restored and restored.experiment else Insert([["T0",meta]])
 
         try:
             lrn_mismatch = restored and n_given_lrns != restored.experiment.get('n_learners',n_given_lrns)
@@ -207,6 +215,39 @@ class Experiment:
         del CobaContext.store['experiment_seed']
 
         return Pipes.join(source,decode,result).read()
+
+    def _drop_partial_record(self, result_file:str) -> None:
+        #An interrupted run can leave a final record that was only partly written (or, for .gz, a
+        #compressed stream that was cut short). Everything before it is intact so we keep that and
+        #remove the partial record. If nothing at all was completely written we start from scratch.
+        opener = gzip.open if ".gz" in result_file else open
+        intact = result_file + ".intact"
+        n_intact, is_clean = 0, True
+
+        with opener(intact,'wb') as out:
+            try:
+                with opener(result_file,'rb') as f:
+                    for line in f:
+                        if not line.endswith(b'\n'):
+                            is_clean = False
+                            try:
+                                #everything but the line terminator made it to disk
+                                json.loads(line)
+                                line += b'\n'
+                            except ValueError:
+                                break
+                        out.write(line)
+                        n_intact += 1
+            except (EOFError,OSError,zlib.error):
+                is_clean = False
+
+        if is_clean and n_intact:
+            os.remove(intact)
+        elif n_intact:
+            os.replace(intact,result_file)
+        else:
+            os.remove(intact)
+            os.remove(result_file)
 
     def _parse_init_args(self,*args,**kwargs) -> Tuple[Sequence[Tuple[Environment,Learner]], Evaluator, Optional[str]]:
         #we know this with 100% certainty
